@@ -71,6 +71,19 @@ HISTORY = {
     'C17r2-A': ('caught', 'R-version-select existed'),
     'C17r2-B': ('missed', 'R-version-pairing extended: every (wildcard) store of the enabled version reaches a table rebuild on all normal paths'),
     'C05r2-B': ('missed', 'new rule R-serializer-idle'),
+    'C05r2-A': ('missed', 'not decided: a back-off that may hint the first stored index (needs the run-time fact that the compaction base always matches); see 8.5 notes'),
+    'C14r2-A': ('missed', 'new rule R-disc-attribution'),
+    'C14r2-B': ('missed', 'new rule R-established-checked'),
+    'C15r2-A': ('missed', 'new rule R-none-is-a-value (with positive fixture)'),
+    'C15r2-B': ('caught', 'R-delegate-agree existed'),
+    'C16r2-A': ('missed', 'R-late-acquire extended: both ends of the elapsed time come from the same clock'),
+    'C16r2-B': ('caught', 'R-consumer-state existed'),
+    'C18r2-A': ('missed', 'R-apply-on-append extended: with dynamic membership on, no path after storing entries avoids the scan; listed under C18'),
+    'C18r2-B': ('caught', 'R-disposition existed'),
+    'C19r2-A': ('caught', 'R-commit-subscription existed'),
+    'C19r2-B': ('analysis-error', 'R-cb-linear: a local holding the same dict (equality fact) is the table; rebinding the local is not a reset'),
+    'C20r2-A': ('missed', 'R-response-time-writes extended: a connection-event callback must not refresh the table'),
+    'C20r2-B': ('analysis-error', 'fallback site found through .get(); a clock default for a missing entry is a violation'),
 }
 
 
